@@ -342,7 +342,14 @@ func strLen(L *LState) int {
 
 func strLower(L *LState) int {
 	str := L.CheckString(1)
-	L.Push(LString(strings.ToLower(str)))
+	// byte-wise and ASCII only, like tolower in the "C" locale: bytes >= 0x80 are kept
+	buf := []byte(str)
+	for i, c := range buf {
+		if 'A' <= c && c <= 'Z' {
+			buf[i] = c + ('a' - 'A')
+		}
+	}
+	L.Push(LString(string(buf)))
 	return 1
 }
 
@@ -422,7 +429,14 @@ func strSub(L *LState) int {
 
 func strUpper(L *LState) int {
 	str := L.CheckString(1)
-	L.Push(LString(strings.ToUpper(str)))
+	// byte-wise and ASCII only, like toupper in the "C" locale: bytes >= 0x80 are kept
+	buf := []byte(str)
+	for i, c := range buf {
+		if 'a' <= c && c <= 'z' {
+			buf[i] = c - ('a' - 'A')
+		}
+	}
+	L.Push(LString(string(buf)))
 	return 1
 }
 
